@@ -38,9 +38,19 @@ MayApply(f, g) == LET e == Trace[l] IN
 TApply == /\ l <= N /\ ok /\ UNCHANGED kitvars
           /\ \E f \in Filers, g \in Filers : (f # g /\ MayApply(f, g)) = TRUE /\ AApply(f, g)
           /\ UNCHANGED <<pos, restarted, rotl, hist>>
-(* known finding X05-segment-skip-loss: f never gets g's next change *)
+(* known finding X05-segment-skip-loss: f never gets g's next change.  Only tried at a barrier, and only when the
+   listing of f's store that follows the barrier line does not show the change's effect (otherwise skipping it and
+   applying it cannot be told apart, and applying it is the strict reading). *)
+LsOf(f) == LET js == {j \in (l + 1)..Min2(N, l + Cardinality(Filers) + 1) : Trace[j].ev = "ls" /\ Trace[j].f = f /\ Trace[j].x = Trace[l].x}
+           IN IF js = {} THEN <<>> ELSE Trace[CHOOSE j \in js : \A k \in js : j <= k].ents
+EffectShown(e, ents) == IF e.np # "" THEN \E i \in 1..Len(ents) : ents[i][1] = e.np /\ ents[i][2] = e.nid
+                        ELSE \A i \in 1..Len(ents) : ents[i][1] # e.op
 TSkipApply == /\ l <= N /\ ok /\ l' = l /\ ok' = ok /\ Deviate("X05-segment-skip-loss")
-              /\ \E f \in Filers, g \in Filers : (f # g /\ MayApply(f, g)) = TRUE /\ ASkip(f, g)
+              /\ Trace[l].ev \in {"quiet", "timeout"}     \* (what an operation line needs can wait: applies are lazy)
+              /\ \E f \in Filers, g \in Filers :
+                   /\ (f # g /\ MayApply(f, g) /\ applied[f][g] < Len(log[g])) = TRUE
+                   /\ (LsOf(f) = <<>> \/ ~EffectShown(log[g][applied[f][g] + 1], LsOf(f))) = TRUE
+                   /\ ASkip(f, g)
               /\ UNCHANGED <<pos, restarted, rotl, hist>>
 (* known finding X05-replay-not-atomic: the first half of the Replay of a replacing change, seen by the next line *)
 TApplyRm == /\ l <= N /\ ok /\ l' = l /\ ok' = ok /\ Deviate("X05-replay-not-atomic")
@@ -110,7 +120,7 @@ TGot == /\ IsEvent("got")
                       /\ Complete(Pl, Ev.f, Ev.kind)
                       /\ pos' = SetPos(Ev.c, Pl)
                    \/ /\ Deviate("X05-agg-rotation-gap")
-                      /\ Ev.kind = "agg" /\ Ev.f \in SeqRange(Ev.rot)
+                      /\ Ev.kind = "agg" /\ (Ev.f \in SeqRange(Ev.rot) \/ Ev.f \in rotl)
                       /\ Genuine(Pa)
                       /\ pos' = SetPos(Ev.c, Pa)
                    \/ /\ Deviate("X05-segment-skip-loss")
@@ -125,13 +135,19 @@ TGot == /\ IsEvent("got")
    subscriber's, or the one feeding a peer's aggregator) slept through the last change; the driver then makes
    a second round of marker changes, after which everything has to be there as if nothing had happened *)
 TStall == /\ IsEvent("stall")
-          /\ \/ Deviate("X05-lost-wakeup") /\ Ev.rot = <<>>
-             \/ Deviate("X05-agg-rotation-gap") /\ Ev.kind = "agg" /\ Ev.f \in SeqRange(Ev.rot)
+          /\ \/ Deviate("X05-lost-wakeup")
+             \/ Deviate("X05-agg-rotation-gap") /\ Ev.kind = "agg" /\ (Ev.f \in SeqRange(Ev.rot) \/ Ev.f \in rotl)
+             \/ Deviate("X05-segment-skip-loss") /\ rotl # {}     \* a subscription polling the persisted log
           /\ Same
-(* known finding X05-agg-rotation-gap, the subscriber stayed stuck through both rounds: the stores are complete *)
-TTimeout == /\ IsEvent("timeout") /\ Deviate("X05-agg-rotation-gap")
-            /\ Ev.kind = "agg" /\ Ev.f \in SeqRange(Ev.rot)
-            /\ (Quiescent = TRUE)
+(* both rounds failed.  X05-agg-rotation-gap: a subscriber of the aggregated stream stayed stuck, the stores are
+   complete.  X05-segment-skip-loss: a subscription (a peer's aggregator or a subscriber) is still polling the
+   persisted log for a file that will only appear with the next flush; what it has not got yet stays pending. *)
+TTimeout == /\ IsEvent("timeout")
+            /\ \/ /\ Deviate("X05-agg-rotation-gap")
+                  /\ Ev.kind = "agg" /\ (Ev.f \in SeqRange(Ev.rot) \/ Ev.f \in rotl)
+                  /\ (Quiescent = TRUE)
+               \/ /\ Deviate("X05-segment-skip-loss")
+                  /\ rotl # {} /\ Ev.kind \in {"store", "agg", "loc"}
             /\ Same
 (* the schedule: deliveries of g's changes to f's aggregator held back / let go by the harness *)
 TSched == (IsEvent("hold") \/ IsEvent("release") \/ IsEvent("holdc") \/ IsEvent("releasec") \/ IsEvent("waitsec") \/ IsEvent("waitmin"))
